@@ -20,7 +20,7 @@ import (
 
 func init() {
 	vc.Register(&vc.Check{ID: "C10", Level: "model_checking", Run: run, Replay: replay, QuickSec: 150, ThoroSec: 1200,
-		Rule: "(1) full product CLA{00,10} x INS{even,odd} x 18 data lengths (block, 255/256 and 65280 boundaries) x 7 Le values x 4 algorithms x 3 initial counters: each command sent through the real NfcSession.DoAPDU with SM installed; the independent strict chip-side parser must authenticate it (CLA 0C, DO order [85|87][97]8E, tag by INS parity, indicator 01, DO97 iff Le and encoding Le, MAC over SSC||padded header||DOs) and decrypt it to the intended INS/P1/P2/data/Le. (2) explicit-state exploration of ALL histories up to depth 3 (thorough 4) over 6 command shapes x 5 chip answer kinds (9000+data, 9000, protected 6A82/6982/6282) for 4 algorithms x 3 initial counters incl. wrap; invariant in every state: terminal counter == chip counter, and the next exchange authenticates on both sides. states = history nodes visited, transitions = exchanges; distinct_nontrivial = distinct (alg, ssc, command shape, outcome) of part 1 + distinct canonical state keys of part 2",
+		Rule:   "(1) full product CLA{00,10} x INS{even,odd} x 18 data lengths (block, 255/256 and 65280 boundaries) x 7 Le values x 4 algorithms x 3 initial counters: each command sent through the real NfcSession.DoAPDU with SM installed; the independent strict chip-side parser must authenticate it (CLA 0C, DO order [85|87][97]8E, tag by INS parity, indicator 01, DO97 iff Le and encoding Le, MAC over SSC||padded header||DOs) and decrypt it to the intended INS/P1/P2/data/Le. (2) explicit-state exploration of ALL histories up to depth 3 (thorough 4) over 6 command shapes x 5 chip answer kinds (9000+data, 9000, protected 6A82/6982/6282) for 4 algorithms x 3 initial counters incl. wrap; invariant in every state: terminal counter == chip counter, and the next exchange authenticates on both sides. Every protected status word SW1 in 61..6F/90..9F x SW2 x {data, none} followed by one more exchange. states = history nodes visited, transitions = exchanges; distinct_nontrivial = distinct (alg, ssc, command shape, outcome) of part 1 + distinct canonical state keys of part 2",
 		Assume: []string{"chip-side SM refcrypto.SM anchored to ICAO 9303-11 App. D.4", "the chip answers every authenticated command with a genuine protected response (faulty links are C03/C11)"}})
 }
 
@@ -42,7 +42,29 @@ type ansKind int
 
 var ansNames = []string{"9000+data", "9000", "6A82", "6982", "6282+data"}
 
+// swAnswer encodes "protected status word sw, with 3 bytes of data or without" as an answer kind.
+func swAnswer(sw uint16, withData bool) ansKind {
+	k := 1<<17 | int(sw)<<1
+	if withData {
+		k |= 1
+	}
+	return ansKind(k)
+}
+
+func ansName(k ansKind) string {
+	if int(k) < len(ansNames) {
+		return ansNames[k]
+	}
+	return fmt.Sprintf("%04X%s", (int(k)>>1)&0xFFFF, map[bool]string{true: "+data", false: ""}[k&1 == 1])
+}
+
 func answer(k ansKind) ([]byte, uint16) {
+	if k>>17 == 1 {
+		if k&1 == 1 {
+			return pat(3, 0x55), uint16(k >> 1)
+		}
+		return nil, uint16(k >> 1)
+	}
 	switch k {
 	case 0:
 		return pat(20, 0x33), 0x9000
@@ -132,15 +154,15 @@ func runStepsSSC(alg refcrypto.Alg, ssc []byte, steps []step) result {
 		}
 		d, sw := answer(st.A)
 		if derr != nil {
-			fail("genuine-response-rejected", fmt.Sprintf("step %d %+v answer %s: %v", i, st.C, ansNames[st.A], derr))
+			fail("genuine-response-rejected", fmt.Sprintf("step %d %+v answer %s: %v", i, st.C, ansName(st.A), derr))
 			break
 		}
 		if r.Status != sw || !(len(r.Data) == len(d) && (len(d) == 0 || bytes.Equal(r.Data, d))) {
-			fail("genuine-response-altered", fmt.Sprintf("step %d %+v answer %s: got %04x/%x", i, st.C, ansNames[st.A], r.Status, r.Data))
+			fail("genuine-response-altered", fmt.Sprintf("step %d %+v answer %s: got %04x/%x", i, st.C, ansName(st.A), r.Status, r.Data))
 			break
 		}
 		if !bytes.Equal(lib.SSC(), chip.SSCBytes()) {
-			fail("ssc-diverged", fmt.Sprintf("after step %d (%+v, answer %s): terminal SSC %x, chip SSC %x", i, st.C, ansNames[st.A], lib.SSC(), chip.SSCBytes()))
+			fail("ssc-diverged", fmt.Sprintf("after step %d (%+v, answer %s): terminal SSC %x, chip SSC %x", i, st.C, ansName(st.A), lib.SSC(), chip.SSCBytes()))
 			break
 		}
 	}
@@ -352,6 +374,46 @@ part2:
 				}
 				c.Distinct(fmt.Sprintf("carry/%d/%d/%d", alg, k, hi))
 			}
+		}
+	}
+	// part 2d: every status word a chip can protect (ISO 7816-4: SW1 = 61..6F, 90..9F), with and without data,
+	// followed by one more exchange: the response is delivered as protected and the counters stay in lock-step
+	// (a status that the terminal treats specially - e.g. as "secure messaging aborted" - must not do so when it
+	// arrives authenticated)
+	sec2d := "every protected status word, then one more exchange"
+	c.SecBound(sec2d, "SW1 in {61..6F, 90..9F} x SW2 in 00..FF x {no data, 3 bytes of data} x 4 algs (quick: 3DES and AES-128): exchange with that protected status, then a read exchange")
+	for ai, alg := range smdrv.Algs {
+		if !c.Thorough() && ai >= 2 {
+			continue
+		}
+		for sw1 := 0x61; sw1 <= 0x9F; sw1++ {
+			if sw1 > 0x6F && sw1 < 0x90 {
+				continue
+			}
+			if !c.Mine() {
+				continue
+			}
+			for sw2 := 0; sw2 < 256; sw2++ {
+				for _, wd := range []bool{false, true} {
+					a := swAnswer(uint16(sw1<<8|sw2), wd)
+					sh := shapes[1]
+					if wd {
+						sh = shapes[2]
+					}
+					steps := []step{{sh, a}, {shapes[2], 0}}
+					r := runSteps(alg, 1, steps)
+					c.AddStates(2)
+					c.AddTrans(2)
+					c.AddTraces(1)
+					if r.Key != "" {
+						c.Violation(sec2d, r.Key+"/protected-status-word", fmt.Sprintf("alg %s protected status %s: %s", alg, ansName(a), r.What), map[string]any{"alg": int(alg), "ssc": 1, "steps": steps}, nil)
+						c.Outcome(sec2d, "VIOLATION")
+					} else {
+						c.Outcome(sec2d, "delivered+lockstep")
+					}
+				}
+			}
+			c.Distinct(fmt.Sprintf("sw1/%d/%02x", alg, sw1))
 		}
 	}
 	// part 2c: two independent sessions used alternately in one process (state that leaks between sessions - a scratch
